@@ -480,7 +480,7 @@ class CharToLineOffset(object):
         self.src_len = len(src)
 
     def __call__(self, char_pos):
-        line_no = bisect.bisect(self.line_break_positions, char_pos)
+        line_no = bisect.bisect_left(self.line_break_positions, char_pos)
         if line_no == 0:
             char_no = char_pos
         elif line_no == len(self.line_break_positions):
